@@ -2379,6 +2379,14 @@ impl Connection {
 
         let was_closed = self.state.is_closed();
         let was_drained = self.state.is_drained();
+        // Whether the application has already been told that this connection was lost: draining
+        // is entered through a reported peer close or error, and a transport-level close reason
+        // stems from a reported local protocol error.
+        let loss_reported = match self.state {
+            State::Draining | State::Drained => true,
+            State::Closed(ref closed) => matches!(closed.reason, Close::Connection(_)),
+            _ => false,
+        };
 
         let decrypted = match packet {
             None => Err(None),
@@ -2463,7 +2471,11 @@ impl Connection {
 
         // State transitions for error cases
         if let Err(conn_err) = result {
-            self.error = Some(conn_err.clone());
+            // A stateless reset or error arriving after that only speeds up draining; the loss is
+            // reported exactly once
+            if !loss_reported {
+                self.error = Some(conn_err.clone());
+            }
             self.state = match conn_err {
                 ConnectionError::ApplicationClosed(reason) => State::closed(reason),
                 ConnectionError::ConnectionClosed(reason) => State::closed(reason),
